@@ -104,13 +104,18 @@ theorem popFull_older (o : Ops) (s : MSt) (el : Str) :
           · exact ⟨rfl, rfl⟩
           · split
             · rename_i hin
-              refine ⟨?_, rfl⟩
-              simp only [older, hin, ↓reduceIte]
-              split <;> simp [updHead_updHead_drop]
+              have hin' : s.c.inentry = true := by
+                simp only [Bool.and_eq_true] at hin; exact hin.1
+              simp [older, hin']
             · split
-              · rename_i hin _
-                simp [older, hin]
-              · exact ⟨rfl, rfl⟩
+              · rename_i hin
+                refine ⟨?_, rfl⟩
+                simp only [older, hin, ↓reduceIte]
+                split <;> simp [updHead_updHead_drop]
+              · split
+                · rename_i hin _
+                  simp [older, hin]
+                · exact ⟨rfl, rfl⟩
 
 theorem popContent_older (o : Ops) (s : MSt) (k : Str) :
     older (popContent o s k).2.c = older s.c ∧ (popContent o s k).2.c.inentry = s.c.inentry := by
@@ -184,6 +189,24 @@ theorem step_older (o : Ops) (s : MSt) (e : MEv) (s' : MSt) (h : mstep o s e = .
     · cases h
     simp only [startTag0] at h
     have hs := startPre_older o s.c tag attrs
+    cases hx : extKind (handlerName (startPre o s.c tag attrs).1 tag) with
+    | some kind =>
+      rw [hx] at h
+      simp only at h
+      cases hr : startExt (startPre o s.c tag attrs).1 kind (startPre o s.c tag attrs).2 with
+      | error w => rw [hr] at h; simp [applyExt] at h
+      | ok r =>
+        obtain ⟨c', es⟩ := r
+        have hf := startExt_frame _ _ _ _ _ hr
+        rw [hr] at h
+        simp only [applyExt, Outcome.ok.injEq] at h
+        rw [← h]
+        refine ⟨[], ?_⟩
+        rw [← hs]
+        simp [older, hf.1, hf.2.1]
+    | none =>
+    rw [hx] at h
+    simp only at h
     cases hd : dispatchCore (startPre o s.c tag attrs).1 (handlerName (startPre o s.c tag attrs).1 tag) (startPre o s.c tag attrs).2 with
     | error w => rw [hd] at h; simp [applyDispatch] at h
     | ok r =>
@@ -197,6 +220,17 @@ theorem step_older (o : Ops) (s : MSt) (e : MEv) (s' : MSt) (h : mstep o s e = .
     simp only [mstep, endTag] at h
     split at h
     · -- the end tag of the open text construct: pop_content
+      split at h
+      · -- a summary / description / content end handler
+        rename_i kind _
+        rw [endExt_ok o s s' kind h]
+        refine ⟨[], ?_⟩
+        have hp := popContent_older o s (endPlan s.c kind).1
+        have he := endExtCore_older o s kind
+        simp only [endFinish_older, List.nil_append]
+        unfold older at hp ⊢
+        rw [he]
+        exact hp.1
       obtain ⟨k, top, rest, _, _, _, hs'⟩ := endContent_ok o s s' _ h
       rw [hs']
       refine ⟨[], ?_⟩
@@ -217,7 +251,7 @@ theorem step_older (o : Ops) (s : MSt) (e : MEv) (s' : MSt) (h : mstep o s e = .
         have hp := pop_older o s (S "item")
         rw [← h]
         simp only [endFinish_older]
-        have e1 : older { (pop o s (S "item")).c with inentry := false } = (pop o s (S "item")).c.entries := by simp [older]
+        have e1 : older { (pop o s (S "item")).c with inentry := false, hasContent := false } = (pop o s (S "item")).c.entries := by simp [older]
         rw [e1]
         unfold older at hp ⊢
         by_cases hin : s.c.inentry = true
